@@ -2,9 +2,11 @@ package grpcbridge
 
 import (
 	"context"
+	"encoding/base64"
 
 	"github.com/renbou/grpcbridge/bridgelog"
 	"github.com/renbou/grpcbridge/grpcadapter"
+	"github.com/renbou/grpcbridge/internal/ascii"
 	"github.com/renbou/grpcbridge/internal/rpcutil"
 	"github.com/renbou/grpcbridge/routing"
 	"google.golang.org/grpc"
@@ -75,7 +77,7 @@ func (s *GRPCProxy) StreamHandler(_ any, incoming grpc.ServerStream) error {
 	logger.Debug("began proxying gRPC stream")
 	defer logger.Debug("ended proxying gRPC stream")
 
-	return s.forwarder.Forward(incoming.Context(), grpcadapter.ForwardParams{
+	return s.forwarder.Forward(wireFormMetadata(incoming.Context()), grpcadapter.ForwardParams{
 		Target:   route.Target,
 		Service:  route.Service,
 		Method:   route.Method,
@@ -83,6 +85,36 @@ func (s *GRPCProxy) StreamHandler(_ any, incoming grpc.ServerStream) error {
 		Outgoing: conn,
 	})
 }
+
+// wireFormMetadata returns ctx with the incoming metadata in the form it has on the wire and on all the other
+// (HTTP-based) entry points, which is the form a [grpcadapter.MetadataFilter] expects: gRPC-Go has already
+// base64-decoded the values of binary ("-bin") keys, and [grpcadapter.ProxyMDFilter] decodes such values itself,
+// so without this an allowed binary field would be decoded twice and reach the target mangled or not at all.
+// Padded StdEncoding is used since it is the one form always read back by a single decoder (len%4 == 0).
+// Only a copy is modified (FromIncomingContext copies the map), the metadata owned by gRPC-Go is left as is.
+func wireFormMetadata(ctx context.Context) context.Context {
+	md, ok := metadata.FromIncomingContext(ctx)
+	if !ok {
+		return ctx
+	}
+
+	for k, vals := range md {
+		// Same keys as gRPC-Go has decoded: any key ending with "-bin".
+		if len(k) < len(binarySuffix) || !ascii.EqualFold(k[len(k)-len(binarySuffix):], binarySuffix) {
+			continue
+		}
+
+		encoded := make([]string, len(vals))
+		for i, v := range vals {
+			encoded[i] = base64.StdEncoding.EncodeToString([]byte(v))
+		}
+		md[k] = encoded
+	}
+
+	return metadata.NewIncomingContext(ctx, md)
+}
+
+const binarySuffix = "-bin"
 
 type grpcServerStream struct {
 	grpc.ServerStream
